@@ -560,6 +560,9 @@ def run(rep, tier):
             rep.fail('R04.9', 'emitted step|deep completion stops at the first member', 'generated uscxml_step line %d' % b['loc'][1], 'the emitted loop at generated line %d adds the ancestors of the completion members but leaves at the first one: an `initial` attribute naming states in several regions enters the other targets without their parents (the interpreter enters them)' % lp['loc'][1])
         if not brk:
             rep.ok('R04.9', 'emitted step|deep completion (%s)' % alt, 'every completion member contributes its ancestors')
+        for lp_, gd_ in _skel_mod().completion_closure_wholesale_guard(cg.fn('uscxml_step')):
+            if alt == alts[0]:
+                rep.fail('R04.9', 'emitted step|deep completion switched as a whole', 'generated uscxml_step line %d' % gd_['loc'][1], 'the emitted loop at generated line %d runs only if NO completion member is a direct child: initial="C a" enters a without its parents (the default engine decides per member)' % lp_['loc'][1])
         break
     # ---- R04.8 (shared with C05: the document-dependent tables decide what the fixed step function does)
     from . import C05, _domain
